@@ -207,6 +207,10 @@ func (s *PfcpServer) receiver(wg *sync.WaitGroup) {
 		}
 
 		s.log.Tracef("receiver reads message(len=%d)", n)
+		if n == 0 {
+			// an empty datagram is not a PFCP message; an empty ReceivePacket tells main() that the receiver closed
+			continue
+		}
 		msgBuf := make([]byte, n)
 		copy(msgBuf, buf)
 		s.rcvCh <- ReceivePacket{
